@@ -421,6 +421,12 @@ def explore_function(registry, spec, tier, prop, root=None, split_depth=None):
         rep["detail"] = str(e)
         rep["obligations"].append({"name": f"{prop}/{spec.file}:{spec.qual}/engine-supports-function", "kind": "unsupported", "verdict": "unsupported", "fn": rep["fn"], "detail": str(e), "line": None})
         return rep
+    except (AttributeError, TypeError, KeyError, IndexError, z3.Z3Exception) as e:
+        # the code took a shape the spec/engine does not anticipate: undecided, never a violation, never a silent pass
+        rep["status"] = "unsupported"
+        rep["detail"] = f"{type(e).__name__}: {e}\n" + traceback.format_exc()[-1500:]
+        rep["obligations"].append({"name": f"{prop}/{spec.file}:{spec.qual}/engine-supports-function", "kind": "unsupported", "verdict": "unsupported", "fn": rep["fn"], "detail": rep["detail"][:600], "line": None})
+        return rep
     rep["paths"] = len(paths)
     rep["path_summary"] = [f"{p['outcome']}:{p['exc'] or ''}@L{p['line']} d={''.join(str(int(d)) for d in p['decisions'])}" for p in paths][:200]
     for pi, p in enumerate(paths):
